@@ -1,9 +1,12 @@
 package main
 
-// Third oracle (thorough tier, or VERIF_C19_WUFFS=1): the Wuffs std/png decoder regenerated from
-// the working tree (`wuffs gen` in a scratch copy), through example/convert-to-nia compiled
-// against that regenerated snapshot.  Output is NIE: 16-byte header, BGRA non-premultiplied,
-// 8 or 16 (little-endian) bits per channel.
+// Third, ADVISORY oracle (thorough tier, or VERIF_C19_WUFFS=1): Wuffs' own std/png decoder, through
+// example/convert-to-nia compiled against the tree's release/c/wuffs-unsupported-snapshot.c.
+// (Regenerating the decoder with the working tree's compiler was tried and dropped: a change anywhere
+// in lang/ or internal/cgen — other properties' territory — then shows up here as a "PNG" failure.)
+// A disagreement is recorded as a note and counted, not as a violation of C19: the property's verdict
+// rests on the reference walker and image/png.
+// Output is NIE: 16-byte header, BGRA non-premultiplied, 8 or 16 (little-endian) bits per channel.
 
 import (
 	"bytes"
@@ -34,21 +37,16 @@ func newWuffsOracle(r *hlib.Run) *wuffsOracle {
 		r.Count("wuffs-oracle:skipped-no-cc")
 		return nil
 	}
-	sb, err := hlib.GenStd(r.Repo)
-	if err != nil {
-		r.Note("wuffs oracle skipped: wuffs gen failed: " + err.Error())
-		r.Count("wuffs-oracle:skipped-gen-failed")
-		return nil
-	}
-	bin := filepath.Join(sb.BinDir, "convert-to-nia")
-	src := filepath.Join(sb.Scratch, "example", "convert-to-nia", "convert-to-nia.c")
+	dir, cleanup := hlib.NewScratchDir("c19wuffs")
+	bin := filepath.Join(dir, "convert-to-nia")
+	src := filepath.Join(r.Repo, "example", "convert-to-nia", "convert-to-nia.c")
 	if err := hlib.CC(cc, "-O1", "-DMAX_DIMENSION=16777215", "-o", bin, src); err != nil {
-		sb.Cleanup()
+		cleanup()
 		r.Note("wuffs oracle skipped: compile failed: " + err.Error())
 		r.Count("wuffs-oracle:skipped-cc-failed")
 		return nil
 	}
-	return &wuffsOracle{bin: bin, cleanup: sb.Cleanup}
+	return &wuffsOracle{bin: bin, cleanup: cleanup}
 }
 
 // expectNIE renders the expected pixels (PNG packed layout of format f) as NIE payload.
